@@ -639,7 +639,7 @@ def check(ctx):
         if diffs and all(d.kind == "impl-vs-model" for d in diffs):
             # the white-box part of a line disagrees before any public observable does: look for a concrete failing input
             # by running the disagreeing histories again without the white-box part (each history stops at its first difference)
-            again = [[("obs 2" if l == "obs 3" else l) for l in d.hist] for d in diffs[:6000]]
+            again = [[("obs 2" if l == "obs 3" else l) for l in d.hist] for d in diffs[:2500]]
             more = C.differential(ctx, harness, C.driver_path(DRIVER), again, reference, C.default_eq, timeout=600)
             conc = [d for d in more if d.kind != "impl-vs-model"]
             ctx.log(f"white-box disagreement first: {len(again)} histories re-run without it, {len(conc)} concrete failure(s)")
